@@ -200,7 +200,7 @@ def _collect_body(L):
     h0, h1 = L.at_iteration_start(), L.now()
     frames = L.local("collected_frames")
     n0 = h0.llen(frames)
-    cur0 = L.iter_pre_locals["current_frame"]
+    cur0 = L.iter_pre_local("current_frame")
     return [("one-frame-per-step", And(pf[0].args[3] == cur0,
                                        pf[0].args[4] == scv[0].result, scv[0].args[1] == Val.VInt(n0),
                                        pf[0].args[1] == L.local("var_lookup"), pf[0].args[2] == L.local("var_cache"))),
